@@ -102,8 +102,8 @@ CHECKS = {
  "C07": dict(
    cat="proof",
    text="Theorems (Props/C07.v, closed): for the model of rsec16 (Cauchy and PAR2-Vandermonde parity matrices, GenerateParity, ReconstructData with the lowest-numbered available parity rows, augmented-matrix row reduction from C11) and ANY well-formed parity matrix, any data, any erasure masks: the result is the original data, or not-enough-parity, or singular - never a panic and never success with different data; not-enough-parity exactly when available parity < missing data; nothing missing => Ok without touching parity; both constructors yield well-formed matrices within the documented limits. "
-        "Not proved: that every Cauchy minor is non-singular (MDS) - covered by the differential check (all erasure subsets of all small codes, random large ones); for Vandermonde, singular minors are constructed from the multiplicative orders of the constants and must yield an error in both model and code. Tied to the code on every run; supplied shards re-read after each call.",
-   technique="Rocq proof: reconstruction soundness from the unique-solution theorem of Gauss-Jordan (C11) + matrix associativity; exhaustive small-code differential correspondence check",
+        "CAUCHY MDS is proved: every square submatrix of the Cauchy parity matrix is non-singular for every code with d+p <= 65535 (generalised-Cauchy elimination step + induction over an abstract field), hence the Cauchy coder restores the data for EVERY erasure pattern within capability; for any matrix the singular error is returned only for a system with a non-trivial kernel. For PAR2-Vandermonde, singular minors are constructed from the multiplicative orders of the constants and must yield an error in both model and code; systems with a singular leading minor that need row exchanges are constructed too. Tied to the code on every run; supplied shards re-read after each call.",
+   technique="Rocq proof: reconstruction soundness from the unique-solution theorem of Gauss-Jordan (C11) + Cauchy MDS by generalised-Cauchy elimination and induction; exhaustive small-code differential correspondence check",
    design="6/C07", note=NOTE + "Go applies the matrix through the bulk kernels (C09) on bytes, in parallel chunks (C12); the model applies fmul word-wise."),
  "C12": dict(
    cat="proof",
@@ -126,7 +126,7 @@ CHECKS = {
  "C11": dict(
    cat="proof",
    text="Theorems (Props/C11.v, closed): for the Gauss-Jordan model that follows gf2p16/matrix.go step by step (first non-zero pivot, swap, scale, eliminate below, second pass above) and every well-formed M, N of every dimension: RowReduceForInverse returns the UNIQUE X with M X = N or the singular error and never panics; Inverse returns a two-sided inverse; success implies M is injective (non-singular); the Ok/Err outcome depends on M only; Times is the row-by-column product and is associative. Proof by the invariant 'row operations preserve the solution set' plus the echelon/reduced shape invariants, over an abstract characteristic-2 field instantiated with C08's field. "
-        "Not yet proved: Err implies the existence of a kernel vector (the converse of 'success implies non-singular'); this half is covered by the differential check only (rank-deficient-by-construction matrices at every elimination stage). Tied to the code by structured matrices of every dimension 1..40 (thorough ..300); operands re-read after each call.",
+        "The singular error is returned EXACTLY when M has a non-trivial kernel vector (both directions, for row reduction and inversion; the kernel vector is constructed by back substitution from the failing echelon prefix). Tied to the code by structured matrices of every dimension 1..40 (thorough ..300); operands re-read after each call.",
    technique="Rocq proof: solution-set invariant under row operations + echelon shape invariants by induction; differential correspondence check with structured/rank-deficient generators",
    design="6/C11", note=NOTE + "Row scaling/addition in Go go through the bulk kernels (C09); the model applies fmul element-wise."),
 }
